@@ -160,7 +160,7 @@ struct QArr {                              // owned array of mpq_t
   Q get(int i) const { return Q(v[i]); }
 };
 
-enum Route { R_LOAD = 0, R_COLS_ROWS, R_ROWS_COLS, R_BULK, R_NROUTES };
+enum Route { R_LOAD = 0, R_COLS_ROWS, R_ROWS_COLS, R_BULK, R_FILE, R_NROUTES };   // R_FILE: built, written as MPS, read back (exactly sized arrays, row-major copy present)
 mpq_QSprob sut_build(const Model &m, int route, std::string *err);
 // read the whole problem back through the query API; cross-check redundant routes.
 // returns false + why if the query API fails or is inconsistent with itself
@@ -259,7 +259,7 @@ struct GenLP {
 };
 void gen_lp(Tape &t, const GenOpts &o, GenLP &out);   // mixture of all families
 void gen_lp_family(Tape &t, const GenOpts &o, int family, GenLP &out);
-enum { F_RAND = 0, F_OPT, F_INF, F_FACE, F_UNB, F_ILL, F_CYC, F_SHAPE, F_FIXB, F_NFAM };
+enum { F_RAND = 0, F_OPT, F_INF, F_FACE, F_UNB, F_ILL, F_CYC, F_SHAPE, F_FIXB, F_DUP, F_NFAM };
 
 // ---------------------------------------------------------------- misc
 std::string read_file(const std::string &path, bool *ok = nullptr);
